@@ -1,5 +1,5 @@
 """C03 — sound playback states follow the documented life cycle; Stopped is final."""
-from ..paths import explore, describe, pretty_place, bool_label
+from ..paths import explore, describe, describe_rv, pretty_place, bool_label
 from ..rules import (calls_to, calls_where, blocks_of, must_pass, bool_edges, calls_in, stores_in,
                      self_field_of_call, returns)
 from ..facts import callee_path, op_local, trace
@@ -9,7 +9,8 @@ TEXT = ('The transition relation of PlaybackStateManager is extracted from the M
         'cycle (Stopped has no outgoing edge); fade-driven edges are guarded by the fade tween finishing; fade targets are '
         'the SILENCE/IDENTITY constants; every state change is mirrored to the handle; the decode tables match the enum; '
         'non-advancing states return through zero-fill without touching position; the sweep that unloads finished sounds runs on every path of every callback. Tween timing and gain values are not decided.'
-        ' The static sound feeds its resampler None whenever the transport is not playing (so every finite sound drains and stops).')
+        ' The static sound feeds its resampler None whenever the transport is not playing (so every finite sound drains and stops).'
+        ' The resampler counts down to empty when fed None.')
 TECHNIQUE = 'MIR path-sensitive state-machine extraction + CFG must-pass / table rules'
 
 PSM = 'playback_state_manager::PlaybackStateManager'
@@ -323,6 +324,43 @@ def drain_rule(F, R):
                     'sound whose transport stops at a valid index (reverse playback reaching 0) never becomes Stopped' % (b.path, d[:100]),
                     detail={'pushed': d[:120]}, where=b.where(bb))
     R.floor('B.C03.drain', n, 1)
+    pf = F.body('sound::static_sound::sound::resampler::Resampler::push_frame')
+    em = F.body('sound::static_sound::sound::resampler::Resampler::empty')
+    if R.check(pf is not None and em is not None, 'B.C03.drain', 'anchor:resampler', 'Resampler::push_frame / empty not found'):
+        good = True
+        why = ''
+        for p in explore(pf):
+            if p.end != 'return':
+                continue
+            some = None
+            for bb, desc, lab in p.decisions:
+                if 'is_some(' in desc and 'frame' in desc:
+                    some = bool_label(lab)
+                elif desc.startswith('discr(') and lab in ('Some', 'None') and 'frame' in desc:
+                    some = (lab == 'Some')
+            def val(s_):
+                # the value stored: through a temporary assigned on several branches, the one this path assigned
+                rv_ = s_['rv']
+                if rv_['k'] == 'use' and 'pl' in rv_['op'] and not rv_['op']['pl']['p'] and ('d', rv_['op']['pl']['l']) in p.env:
+                    return p.env[('d', rv_['op']['pl']['l'])]
+                return describe_rv(pf, rv_, depth=4)
+            st = [val(s) for x in p.blocks for s in pf.blocks[x]['stmts']
+                  if s['k'] == 'assign' and s['lhs']['p'] and pretty_place(pf, s['lhs']).endswith('.time_until_empty')]
+            if some is False and not (len(st) == 1 and 'saturating_sub(' in st[0] and st[0].rstrip(')').endswith(', 1')):
+                good = False
+                why = 'pushing None sets the countdown to %s, not countdown.saturating_sub(1)' % st
+            if some is True and not (len(st) == 1 and st[0].isdigit() and int(st[0]) >= 1):
+                good = False
+                why = 'pushing Some(frame) sets the countdown to %s' % st
+            if some is None:
+                good = False
+                why = 'push_frame does not distinguish Some from None'
+        rets = [str(p.ret) for p in explore(em) if p.end == 'return']
+        if rets != ['Eq((*self).time_until_empty, 0)']:
+            good = False
+            why = 'Resampler::empty returns %s' % rets
+        R.check(good, 'B.C03.drain', 'resampler', 'the resampler does not count down to empty when it is fed None: %s' % why,
+                detail='Some => 4; None => saturating_sub(1); empty() == (countdown == 0)', where=pf.file)
 
 
 def op_local_(op):
